@@ -42,6 +42,24 @@ def pair(g: int, h: int, bx: int, x: int, y: int, sh: int, z: int, k: int, i1: i
     return _history(vals, ([("eval",)] if pre else []) + [("edit", e1, v1)] + ([("eval",)] if mid else []) + [("edit", e2, v2)])
 
 
+T1 = [7, 8, 9, 11]          # value edits of S.a / S.b
+T2 = [12, 13, 15, 18, 28, 27]  # formula / rename / cache-flag edits
+T3 = [0, 1, 2, 29, 4, 24]    # reference changes
+
+
+@harness
+def triple(g: int, h: int, bx: int, x: int, y: int, sh: int, z: int, k: int, i1: int, v1: int, i2: int, i3: int, v3: int, ev: int) -> bool:
+    """value edit ; definition edit ; reference change, with evaluations in between (ev: bit mask of the three gaps)."""
+    i1, i2, i3, ev = pick(i1, 0, len(T1) - 1), pick(i2, 0, len(T2) - 1), pick(i3, 0, len(T3) - 1), pick(ev, 0, 7)
+    vals = dict(g=g, h=h, bx=bx, x=x, y=y, sh=sh, z=z, k=k)
+    hist = []
+    for j, (e, v) in enumerate(((T1[i1], v1), (T2[i2], 0), (T3[i3], v3))):
+        if (ev >> j) & 1:
+            hist.append(("eval",))
+        hist.append(("edit", e, v))
+    return _history(vals, hist)
+
+
 _V = dict(g=10, h=20, bx=3, x=1, y=2, sh=30, z=4, k=5)
 NE = len(EDITS)
 ORDER = CRITICAL + [e for e in range(NE) if e not in CRITICAL]
@@ -69,4 +87,11 @@ QUERIES = [
                                "history": "[eval]? ; e1(v1) ; [eval]? ; e2(v2) ; observe all"},
           outside=["triples of edits"]),
 ]
+QUERIES.append(
+    Query("triple", triple, pre=["0 <= i1 < %d" % len(T1), "0 <= i2 < %d" % len(T2), "0 <= i3 < %d" % len(T3), "0 <= ev < 8"],
+          partitions=lambda tier, seed: [dict(i1=a, i2=b, ev=7 if tier == "quick" else [0, 7]) for a in range(len(T1)) for b in range(len(T2))],
+          natives=[dict(_V, i1=a, v1=77, i2=b, i3=c, v3=88, ev=7) for (a, b, c) in ((0, 0, 0), (1, 3, 1), (2, 1, 3), (3, 2, 2), (0, 4, 0), (1, 5, 4))],
+          bounds=lambda tier: {"history": "[eval] ; value edit ; [eval] ; definition edit ; [eval] ; reference change ; observe", "value_edits": [EDITS[e][0] for e in T1],
+                               "definition_edits": [EDITS[e][0] for e in T2], "reference_changes": [EDITS[e][0] for e in T3], "evaluations": "all three gaps (quick) / every subset (thorough)"},
+          outside=["triples outside the three families"]))
 BUDGET = {"quick": 420, "thorough": 1200}
